@@ -273,7 +273,8 @@ mod imp {
     /// runtime remembers about compiled texts is under constant turnover.  Every
     /// compile + search must give the sequential result for that text.
     pub fn compile_storm(src: &mut Src, st: &mut Stats, _env: &Env) -> CaseResult {
-        let n_expr = 70 + src.below(230);
+        // usually a few hundred distinct texts, sometimes several thousand
+        let n_expr = if src.chance(90) { 1100 + src.below(3000) } else { 70 + src.below(230) };
         let shape = src.below(5);
         let exprs: Vec<String> = (0..n_expr)
             .map(|i| match shape {
@@ -288,7 +289,7 @@ mod imp {
         let doc: jmespath::Rcvar = Arc::new(jmespath::Variable::from_json(&doc_text).unwrap());
         let want: Vec<Option<String>> = exprs.iter().map(|e| jmespath::compile(e).ok().map(|c| outcome(c.search(&doc)))).collect();
         let n_threads = 2 + src.below(15);
-        let iters = 200 + src.below(600);
+        let iters = if n_expr > 1000 { 1500 + src.below(1500) } else { 200 + src.below(600) };
         let seeds: Vec<u64> = (0..n_threads).map(|_| src.u64() | 1).collect();
         st.eval();
         let barrier = Barrier::new(n_threads);
